@@ -60,6 +60,56 @@ pub fn bincode_be_back<T: serde::de::DeserializeOwned>(b: &[u8]) -> Option<T> {
     bincode::options().with_big_endian().with_fixint_encoding().deserialize(b).ok()
 }
 
+/// Serde deserialisation from sources that hand the integer over through another callback than the
+/// type's own (an all-i64 or all-u64 format, `value.into_deserializer()`): the Pod type must accept
+/// exactly what the primitive accepts
+macro_rules! serde_callbacks {
+    ($rep:expr, $pod:expr, $prim:expr, $P:ty, $X:ty, $name:expr) => {{
+        use serde::de::{value::Error as VE, IntoDeserializer};
+        use serde::Deserialize;
+        macro_rules! via {
+            ($W:ty) => {
+                if let Ok(w) = <$W>::try_from($prim) {
+                    let a: Result<$X, VE> = <$X>::deserialize(IntoDeserializer::<VE>::into_deserializer(w));
+                    let b: Result<$P, VE> = <$P>::deserialize(IntoDeserializer::<VE>::into_deserializer(w));
+                    if a.is_ok() != b.is_ok() || matches!((&a, &b), (Ok(x), Ok(y)) if <$P>::from(*x) != *y) {
+                        $rep.violate("serde-callback", "Serde deserialisation through another integer callback differs from the primitive's",
+                            serde_json::json!({"type": $name, "delivered_as": stringify!($W), "value": format!("{}", $prim), "primitive": format!("{:?}", a.is_ok()), "pod": format!("{:?}", b.is_ok())}).to_string());
+                    }
+                }
+            };
+        }
+        via!(i64);
+        via!(u64);
+        via!(i32);
+        via!(u32);
+        via!(u8);
+        via!(i8);
+        via!(u16);
+        via!(i16);
+        let _ = &$pod;
+    }};
+}
+/// Borsh containers of Pod values equal the containers of primitives (sequence fast paths)
+macro_rules! borsh_containers {
+    ($rep:expr, $pod:expr, $prim:expr, $P:ty, $X:ty, $name:expr) => {{
+        let vp: Vec<$P> = vec![$pod, <$P>::from(0 as $X), $pod];
+        let vx: Vec<$X> = vec![$prim, 0 as $X, $prim];
+        let ap: [$P; 2] = [$pod, $pod];
+        let ax: [$X; 2] = [$prim, $prim];
+        let ok = borsh::to_vec(&vp).unwrap() == borsh::to_vec(&vx).unwrap()
+            && borsh::to_vec(&ap).unwrap() == borsh::to_vec(&ax).unwrap()
+            && borsh::to_vec(&vp[..]).unwrap() == borsh::to_vec(&vx[..]).unwrap()
+            && borsh::from_slice::<Vec<$P>>(&borsh::to_vec(&vx).unwrap()).ok() == Some(vp.clone())
+            && borsh::from_slice::<[$P; 2]>(&borsh::to_vec(&ax).unwrap()).ok() == Some(ap)
+            && borsh_trickle(&vp) == Some(borsh::to_vec(&vx).unwrap());
+        if !ok {
+            $rep.violate("borsh-container", "a Borsh container (Vec, slice, array) of Pod values differs from the container of primitives",
+                serde_json::json!({"type": $name, "value": format!("{}", $prim), "vec_of_pod": emit::hex(&borsh::to_vec(&vp).unwrap()), "vec_of_prim": emit::hex(&borsh::to_vec(&vx).unwrap())}).to_string());
+        }
+    }};
+}
+
 macro_rules! encodings_equal {
     ($rep:expr, $pod:expr, $prim:expr, $name:expr, borsh) => {{
         let a = borsh::to_vec(&$pod).unwrap();
@@ -142,6 +192,7 @@ pub fn run_c13(ctx: &Ctx) -> Report {
             rep.violate("u16-roundtrip", "PodU16 conversion or memory bytes wrong", serde_json::json!({"x": x}).to_string());
         }
         encodings_equal!(rep, p, x, "PodU16", serde);
+        if x % 97 == 0 || x > 65500 || x < 300 { serde_callbacks!(rep, p, x, PodU16, u16, "PodU16"); }
         encodings_equal!(rep, p, x, "PodU16", wincode);
         let i = (x as i32 - 32768) as i16;
         let pi = PodI16::from(i);
@@ -150,6 +201,7 @@ pub fn run_c13(ctx: &Ctx) -> Report {
             rep.violate("i16-roundtrip", "PodI16 conversion or memory bytes wrong", serde_json::json!({"x": i}).to_string());
         }
         encodings_equal!(rep, pi, i, "PodI16", serde);
+        if i % 97 == 0 || i > 32700 || i < -32700 || (i > -300 && i < 300) { serde_callbacks!(rep, pi, i, PodI16, i16, "PodI16"); }
         encodings_equal!(rep, pi, i, "PodI16", wincode);
         let v = i16::from(PodI16(x.to_le_bytes()));
         inv_i16.extend_from_slice(&((v as i32 + 32768) as u16).to_le_bytes());
@@ -194,6 +246,8 @@ pub fn run_c13(ctx: &Ctx) -> Report {
         }
         encodings_equal!(rep, p, x32, "PodU32", borsh);
         encodings_equal!(rep, p, x32, "PodU32", serde);
+        serde_callbacks!(rep, p, x32, PodU32, u32, "PodU32");
+        borsh_containers!(rep, p, x32, PodU32, u32, "PodU32");
         encodings_equal!(rep, p, x32, "PodU32", wincode);
         rep.case(format!("CU 4 {} {}", x32, emit::blob(&p.0)), true);
         let x64 = interesting_u128(&mut rng, 64) as u64;
@@ -203,6 +257,8 @@ pub fn run_c13(ctx: &Ctx) -> Report {
         }
         encodings_equal!(rep, p, x64, "PodU64", borsh);
         encodings_equal!(rep, p, x64, "PodU64", serde);
+        serde_callbacks!(rep, p, x64, PodU64, u64, "PodU64");
+        borsh_containers!(rep, p, x64, PodU64, u64, "PodU64");
         encodings_equal!(rep, p, x64, "PodU64", wincode);
         rep.case(format!("CU 8 {} {}", x64, emit::blob(&p.0)), true);
         let x128 = interesting_u128(&mut rng, 128);
@@ -212,6 +268,8 @@ pub fn run_c13(ctx: &Ctx) -> Report {
         }
         encodings_equal!(rep, p, x128, "PodU128", borsh);
         encodings_equal!(rep, p, x128, "PodU128", serde);
+        serde_callbacks!(rep, p, x128, PodU128, u128, "PodU128");
+        borsh_containers!(rep, p, x128, PodU128, u128, "PodU128");
         encodings_equal!(rep, p, x128, "PodU128", wincode);
         rep.case(format!("CU 16 {} {}", x128, emit::blob(&p.0)), true);
         rep.count("wide:u");
@@ -221,6 +279,7 @@ pub fn run_c13(ctx: &Ctx) -> Report {
             rep.violate("i64-roundtrip", "PodI64", serde_json::json!({"x": i64v}).to_string());
         }
         encodings_equal!(rep, p, i64v, "PodI64", serde);
+        serde_callbacks!(rep, p, i64v, PodI64, i64, "PodI64");
         encodings_equal!(rep, p, i64v, "PodI64", wincode);
         rep.case(format!("CI 8 ({})%Z {}", i64v, emit::blob(&bytes_of(&p))), true);
         rep.count("wide:i");
